@@ -230,4 +230,78 @@ Proof.
     cbn [opt_or_empty_typedecl]. apply (fix_tn (Some c0) (mkIdType P [v0] (Some c0)) ns' v0 (map snd kvs') c0 s2 eq_refl Hns').
   - unfold tn_res, tn_emb. cbn [strip map]. rewrite strip_strs. reflexivity.
 Qed.
+
+(* ---- `( type-name )`: the speculative attempt succeeds ---- *)
+Lemma tptn_type : forall kvs, kvs <> [] -> Forall (fun kv => kind_in (fst kv) tbl_TYPE_SPEC_SIMPLE = true) kvs ->
+  forall (s: pstate) (lp: tok) le (rpt: tok) l0, tk lp = K_LPAREN -> Spell le kvs -> tk rpt = K_RPAREN -> Up s (lp :: le ++ rpt :: l0) ->
+  exists f0 N s', (forall f, f0 <= f -> try_paren_type_name P f s = Ok (Some (N, idx P s, lp), s')) /\ Up s' l0 /\
+    Ran P s s' (S (S (length le))) /\ strip N = tn_emb (map snd kvs).
+Proof.
+  intros kvs Hne HF s lp le rpt l0 Hlp HS Hrp HU.
+  assert (Hlpk: kind_eqb (tk lp) K_LPAREN = true) by (rewrite Hlp; reflexivity).
+  destruct (accept_hit P s lp _ K_LPAREN HU Hlpk) as [s1 [H1 [HU1 HC1]]].
+  (* the first token of the type name starts a declaration *)
+  destruct kvs as [|[k0 v0] kvs'] eqn:Ekvs; [congruence|]. rewrite <- Ekvs in *.
+  assert (Hx: exists x le', le = x :: le' /\ kind_in (tk x) tbl_DECL_START = true).
+  { rewrite Ekvs in HS, HF. destruct (RoundTrip.Spell_cons_inv P _ _ _ _ HS) as [x [le' [-> [Hkx _]]]]. exists x, le'. split; [reflexivity|].
+    pose proof (Forall_inv HF) as Hk0. cbn [fst] in Hk0. rewrite Hkx. exact (proj2 (proj2 (proj2 (simple_kind_facts k0 Hk0)))). }
+  destruct Hx as [x [le' [El Hxd]]]. pose proof HU1 as HU1'. rewrite El in HU1'. cbn [app] in HU1'.
+  destruct (peek_kind_up P s1 x _ HU1') as [s2 [H2 [HU2 HC2]]].
+  change (x :: le' ++ rpt :: l0) with ((x :: le') ++ rpt :: l0) in HU2. rewrite <- El in HU2.
+  destruct (type_name_run kvs Hne HF s2 le rpt l0 HS HU2 Hrp) as [f0 [N [s3 [H3 [HU3 [HR3 HN]]]]]].
+  assert (Hrpk: kind_eqb (tk rpt) K_RPAREN = true) by (rewrite Hrp; reflexivity).
+  destruct (accept_hit P s3 rpt _ K_RPAREN HU3 Hrpk) as [s4 [H4 [HU4 HC4]]].
+  exists (S f0), N, s4. split; [|split; [exact HU4|split; [cost_tac|exact HN]]].
+  intros f Hf. destruct f as [|f]; [lia|]. rewrite (RoundTrip.tptn_eq P). unfold bind at 1. rewrite mark_eq. unfold bind at 1. rewrite H1.
+  unfold bind at 1. unfold starts_declaration. unfold bind at 1. rewrite H2. unfold ret at 1. cbn [okind_in]. rewrite Hxd. cbn [negb].
+  unfold bind at 1. rewrite (H3 f) by lia. unfold bind at 1. rewrite H4. reflexivity.
+Qed.
+
+(* ---- a cast: ( type-name ) cast-expression ---- *)
+Lemma cast_type : forall kts ko Xo, kts <> [] -> Forall (fun kv => kind_in (fst kv) tbl_TYPE_SPEC_SIMPLE = true) kts ->
+  first_ok ko -> CastS P ko Xo ->
+  CastS P ((K_LPAREN, s2l "(") :: kts ++ (K_RPAREN, s2l ")") :: ko) (VNode C_Cast [tn_emb (map snd kts); Xo] None).
+Proof.
+  intros kts ko Xo Hne HF [k [v [rest [Ek [_ [Hlb _]]]]]] HO s la n l HS HU Hq.
+  destruct (RoundTrip.Spell_cons_inv P _ _ _ _ HS) as [lp [l1 [-> [Hlp [_ HS1]]]]].
+  destruct (RoundTrip.Spell_app_inv P _ _ _ HS1) as [lt [l2 [-> [HSt HS2]]]].
+  destruct (RoundTrip.Spell_cons_inv P _ _ _ _ HS2) as [rpt [lo [-> [Hrp [_ HSo]]]]].
+  cbn [app] in HU. rewrite <- app_assoc in HU. cbn [app] in HU.
+  destruct (tptn_type kts Hne HF s lp lt rpt _ Hlp HSt Hrp HU) as [f1 [Nt [s1 [H1 [HU1 [HR1 HNt]]]]]].
+  pose proof HSo as HSo0. rewrite Ek in HSo. destruct (RoundTrip.Spell_cons_inv P _ _ _ _ HSo) as [x [lo' [-> [Hkx _]]]]. cbn [app] in HU1.
+  destruct (peek_kind_up P s1 x _ HU1) as [s2 [H2 [HU2 HC2]]].
+  change (x :: lo' ++ n :: l) with ((x :: lo') ++ n :: l) in HU2.
+  destruct (HO s2 (x :: lo') n l HSo0 HU2 Hq) as [f2 [No [s3 [H3 [HU3 [HNo HR3]]]]]].
+  exists (S (Nat.max f1 f2)), (mkN P C_Cast [Nt; No] (Some (mkCoord P (curfile P s3) (tp lp)))), s3.
+  split; [|split; [exact HU3|split; [unfold mkN; cbn [strip map]; rewrite HNt, HNo; reflexivity|cost_tac]]].
+  intros f Hf. destruct f as [|f]; [lia|]. rewrite (cast_eq P). unfold bind at 1. rewrite (H1 f) by lia.
+  unfold bind at 1. rewrite H2. cbn [okind_is]. rewrite Hkx, Hlb.
+  unfold bind at 1. rewrite (H3 f) by lia. unfold bind at 1. rewrite tcoord_eq. reflexivity.
+Qed.
+
+(* ---- sizeof ( type-name ) ---- *)
+Lemma sizeof_type : forall kts, kts <> [] -> Forall (fun kv => kind_in (fst kv) tbl_TYPE_SPEC_SIMPLE = true) kts ->
+  CastS P ((K_SIZEOF, s2l "sizeof") :: (K_LPAREN, s2l "(") :: kts ++ [(K_RPAREN, s2l ")")])
+          (VNode C_UnaryOp [VStr (s2l "sizeof"); tn_emb (map snd kts)] None).
+Proof.
+  intros kts Hne HF s la n l HS HU Hq.
+  destruct (RoundTrip.Spell_cons_inv P _ _ _ _ HS) as [t [l0 [-> [Hk [Hv HS0]]]]].
+  destruct (RoundTrip.Spell_cons_inv P _ _ _ _ HS0) as [lp [l1 [-> [Hlp [_ HS1]]]]].
+  destruct (RoundTrip.Spell_app_inv P _ _ _ HS1) as [lt [l2 [-> [HSt HS2]]]].
+  destruct (RoundTrip.Spell_cons_inv P _ _ _ _ HS2) as [rpt [l3 [-> [Hrp [_ HS3]]]]]. apply (RoundTrip.Spell_nil_inv P) in HS3. subst l3.
+  cbn [app] in HU. rewrite <- app_assoc in HU. cbn [app] in HU.
+  assert (HnoLP: kind_eqb (tk t) K_LPAREN = false) by (rewrite Hk; reflexivity).
+  destruct (tptn_no_paren_c P s t _ HU HnoLP) as [s1 [H1 [HU1 HC1]]].
+  destruct (peek_kind_up P s1 t _ HU1) as [s2 [H2 [HU2 HC2]]].
+  destruct (advance_up P s2 t _ HU2) as [s3 [H3 [HU3 HC3]]].
+  destruct (tptn_type kts Hne HF s3 lp lt rpt _ Hlp HSt Hrp HU3) as [f1 [Nt [s4 [H4 [HU4 [HR4 HNt]]]]]].
+  exists (S (S (S f1))), (mkN P C_UnaryOp [VStr (tv t); Nt] (Some (mkCoord P (curfile P s4) (tp t)))), s4.
+  split; [|split; [exact HU4|split; [unfold mkN; cbn [strip map]; rewrite Hv, HNt; reflexivity|cost_tac]]].
+  intros f Hf. destruct f as [|[|[|f]]]; try lia. rewrite (cast_eq P). unfold bind at 1. rewrite H1.
+  rewrite (unary_eq P). unfold bind at 1. rewrite H2. rewrite Hk.
+  change (okind_is (Some K_SIZEOF) K_PLUSPLUS || okind_is (Some K_SIZEOF) K_MINUSMINUS) with false.
+  change (okind_in (Some K_SIZEOF) [K_AND; K_TIMES; K_PLUS; K_MINUS; K_NOT; K_LNOT]) with false.
+  change (okind_is (Some K_SIZEOF) K_SIZEOF) with true. cbv iota.
+  unfold bind at 1. rewrite H3. unfold bind at 1. rewrite (H4 (S f)) by lia. unfold bind at 1. rewrite tcoord_eq. reflexivity.
+Qed.
 End TN.
